@@ -28,13 +28,18 @@ def main(tier):
     for cls in ("DirectSolverGiveCustomLU", "DirectSolverTakeCustomLU"):
         for m in ("buildSolverMatrix", "buildSolverMatrixCircleSection", "buildSolverMatrixRadialSection", "getStencil", "getStencilSize", "solveInPlace"):
             ck.analysed(prog.fn("%s::%s" % (cls, m)))
-    for (nr, nt, nsc, dirbc), threads in itertools.product(shapes(tier), (2, 1)):
+    # variants: the parallel and the sequential assembly path with both caches; for give also the other three cache-flag
+    # combinations (take is rejected without both caches)
+    VARIANTS = [(2, (True, True)), (1, (True, True)), (2, (True, False)), (2, (False, True)), (2, (False, False))]
+    for (nr, nt, nsc, dirbc), (threads, flags) in itertools.product(shapes(tier), VARIANTS):
         S = tab_ops.Setting(prog, nr, nt, nsc, dirbc, threads=threads)
-        sk = S.key() + (" threads=1 (sequential assembly path)" if threads == 1 else "")
+        sk = S.key() + (" threads=1 (sequential assembly path)" if threads == 1 else "") + ("" if flags == (True, True) else " caches=(%s,%s)" % flags)
         for cls, rcls in (("DirectSolverGiveCustomLU", "ResidualGive"), ("DirectSolverTakeCustomLU", "ResidualTake")):
+            if flags != (True, True) and cls != "DirectSolverGiveCustomLU":
+                continue
             key = "%s %s" % (cls, sk)
             site = ir.locstr(prog.fn(cls + "::buildSolverMatrix"))
-            obj = opsdom.build_without_body(prog, S.dom, cls, "DirectSolver", [Cell(S.grid), Cell(S.cache(True, True)), Cell(S.geom), Cell(S.coef), dirbc, threads])
+            obj = opsdom.build_without_body(prog, S.dom, cls, "DirectSolver", [Cell(S.grid), Cell(S.cache(*flags)), Cell(S.geom), Cell(S.coef), dirbc, threads])
             n_oob = len(S.dom.oob)
             M = S.it.call_function(prog.fn(cls + "::buildSolverMatrix"), obj, [])
             T, probs = opsdom.csr_table(M)
